@@ -1,7 +1,9 @@
 package harness
 
 import (
+	"cmp"
 	"fmt"
+	"slices"
 	"sort"
 
 	aftpb "github.com/openconfig/gribi/v1/proto/gribi_aft"
@@ -35,43 +37,56 @@ func normalize(m proto.Message) proto.Message {
 	return c
 }
 
+// snapFromRIBContents renders RIBContents as a Snapshot. The conversion functions
+// are instrumented code (they consume the scheduler's statement budget), so the
+// entries are visited in a canonical order, not in Go's map order.
 func snapFromRIBContents(rc map[string]*aft.RIB) (Snapshot, error) {
 	s := Snapshot{}
-	for ni, r := range rc {
-		a := r.GetAfts()
+	var nis []string
+	for ni := range rc {
+		nis = append(nis, ni)
+	}
+	sort.Strings(nis)
+	for _, ni := range nis {
+		a := rc[ni].GetAfts()
 		if a == nil {
 			continue
 		}
-		for _, e := range a.NextHop {
-			p, err := rib.ConcreteNextHopProto(e)
+		for _, k := range sortedKeys(a.NextHop) {
+			p, err := rib.ConcreteNextHopProto(a.NextHop[k])
 			if err != nil {
 				return nil, err
 			}
 			s[Key{NI: ni, Kind: KNH, ID: p.GetIndex()}] = p
 		}
-		for _, e := range a.NextHopGroup {
-			p, err := rib.ConcreteNextHopGroupProto(e)
+		for _, k := range sortedKeys(a.NextHopGroup) {
+			p, err := rib.ConcreteNextHopGroupProto(a.NextHopGroup[k])
 			if err != nil {
 				return nil, err
 			}
 			s[Key{NI: ni, Kind: KNHG, ID: p.GetId()}] = p
 		}
-		for _, e := range a.Ipv4Entry {
-			p, err := rib.ConcreteIPv4Proto(e)
+		for _, k := range sortedKeys(a.Ipv4Entry) {
+			p, err := rib.ConcreteIPv4Proto(a.Ipv4Entry[k])
 			if err != nil {
 				return nil, err
 			}
 			s[Key{NI: ni, Kind: KV4, Pfx: p.GetPrefix()}] = p
 		}
-		for _, e := range a.Ipv6Entry {
-			p, err := rib.ConcreteIPv6Proto(e)
+		for _, k := range sortedKeys(a.Ipv6Entry) {
+			p, err := rib.ConcreteIPv6Proto(a.Ipv6Entry[k])
 			if err != nil {
 				return nil, err
 			}
 			s[Key{NI: ni, Kind: KV6, Pfx: p.GetPrefix()}] = p
 		}
-		for _, e := range a.LabelEntry {
-			p, err := rib.ConcreteMPLSProto(e)
+		var labels []aft.Afts_LabelEntry_Label_Union
+		for k := range a.LabelEntry {
+			labels = append(labels, k)
+		}
+		sort.Slice(labels, func(i, j int) bool { return fmt.Sprint(labels[i]) < fmt.Sprint(labels[j]) })
+		for _, k := range labels {
+			p, err := rib.ConcreteMPLSProto(a.LabelEntry[k])
 			if err != nil {
 				return nil, err
 			}
@@ -79,6 +94,15 @@ func snapFromRIBContents(rc map[string]*aft.RIB) (Snapshot, error) {
 		}
 	}
 	return s, nil
+}
+
+func sortedKeys[K cmp.Ordered, V any](m map[K]V) []K {
+	ks := make([]K, 0, len(m))
+	for k := range m {
+		ks = append(ks, k)
+	}
+	slices.Sort(ks)
+	return ks
 }
 
 // entryKey extracts the model key and the *Key message of one AFTEntry.
